@@ -187,7 +187,9 @@ Definition authenticate (k : state -> res) (q : nat) (i : ident) (dg : bytes) (l
         let s1 := logA (AAuth q i r dg)
                     (modc q (fun c => set_subchans (r_sub r) (set_pubchans (r_pub r) (set_ak (Some i) c))) s) in
         match k s1 with                      (* self.process_pending() *)
-        | Ok s2 => Ok (resume_r q s2)        (* self.transport.resume_reading() *)
+        | Ok s2 => Ok (match pending (conns s2 q) with      (* if not self._lookups_pending: *)
+                       | [] => resume_r q s2                (*     self.transport.resume_reading() *)
+                       | _ => s2 end)
         | r' => r'
         end
       else Ok (bad q s)
